@@ -7,13 +7,14 @@ class spec: {"kind": "generic", "role": "module"|"vector", "enzyme": "BsaI"}
             {"kind": "kit", "kit": "ytk", "name": "YTKPart1"}
             {"kind": "custom", "role": ..., "enzyme": ..., "structure": "..."}"""
 import importlib
+import json
 import warnings
 
 _CLASSES = {}
 
 
 def get_class(spec, cache=True):
-    key = repr(sorted(spec.items(), key=lambda kv: kv[0]))
+    key = json.dumps(spec, sort_keys=True)
     if cache and key in _CLASSES:
         return _CLASSES[key]
     from Bio import Restriction
@@ -21,6 +22,12 @@ def get_class(spec, cache=True):
     kind = spec["kind"]
     if kind == "kit":
         cls = getattr(importlib.import_module("moclo.kits." + spec["kit"]), spec["name"])
+    elif kind == "sub":
+        # a subclass created at run time, optionally with its own signature
+        attrs = {}
+        if spec.get("sig"):
+            attrs["signature"] = tuple(spec["sig"])
+        cls = type(str(spec["name"]), (get_class(spec["parent"], cache),), attrs)
     else:
         base = AbstractModule if spec["role"] == "module" else AbstractVector
         cutter = getattr(Restriction, spec["enzyme"])
@@ -136,3 +143,42 @@ def run_assembly(case):
         obs["tv"] = typed_info(mk_entity(case["vector"], "vector"))
         obs["tm"] = [typed_info(mk_entity(m, "mod%d" % i)) for i, m in enumerate(case["modules"])]
     return obs
+
+
+def preload():
+    """import everything a typing query needs (importing is not typing)"""
+    from Bio import Restriction  # noqa
+    import Bio.SeqFeature, Bio.SeqRecord, Bio.Seq  # noqa
+    import moclo.core, moclo.record, moclo.regex, moclo.errors  # noqa
+    for k in ("ytk", "cidar", "ecoflex", "moclo", "plant"):
+        importlib.import_module("moclo.kits." + k)
+
+
+def in_fork(fn, arg):
+    """run fn(arg) in a forked child (class-level caches of this process are left
+    untouched and the child starts from them) and return its JSON-able result"""
+    import json
+    import os
+    r, w = os.pipe()
+    pid = os.fork()
+    if pid == 0:
+        code = 0
+        try:
+            os.close(r)
+            try:
+                data = json.dumps({"ok": fn(arg)}, default=str)
+            except BaseException as e:  # noqa
+                data = json.dumps({"err": "%s: %s" % (type(e).__name__, e)})
+            with os.fdopen(w, "w") as fh:
+                fh.write(data)
+        except BaseException:  # noqa
+            code = 1
+        os._exit(code)
+    os.close(w)
+    with os.fdopen(r) as fh:
+        data = fh.read()
+    os.waitpid(pid, 0)
+    res = json.loads(data) if data else {"err": "no output from child"}
+    if "err" in res:
+        raise RuntimeError(res["err"])
+    return res["ok"]
